@@ -363,7 +363,7 @@ func parametersJSON(it map[string]any, fk string) ([]byte, error) {
 			return nil, err
 		}
 		v = json.Number(plainDecimal(d))
-	case t == "s" && (fk == "string" || fk == "code" || fk == "id" || fk == "uri" || fk == "markdown"):
+	case t == "s" && (fk == "string" || fk == "code" || fk == "id" || fk == "uri" || fk == "markdown" || fk == "url" || fk == "canonical"):
 		s, err := cps(it["cp"])
 		if err != nil {
 			return nil, err
